@@ -100,12 +100,19 @@ class GrammarSemantics(ModelBuilderSemantics):
 
     def string(self, ast):
         value = ast
-        return eval_escapes(value)
+        return self._eval_escapes(value)
 
     def multiline_string(self, ast):
         value = ast
         value = trim(value.strip()).rstrip()
-        return eval_escapes(value)
+        return self._eval_escapes(value)
+
+    @staticmethod
+    def _eval_escapes(value):
+        try:
+            return eval_escapes(value)
+        except (UnicodeDecodeError, ValueError) as e:
+            raise FailedSemantics(f'invalid escape sequence in {value!r}: {e}') from e
 
     def hex(self, ast):
         return int(ast, 16)
